@@ -2,7 +2,7 @@
    -> one line, TAB separated:
         text (code points joined by ",")
         flags "<tokenize_render_ok> <selectors_ok> <well_ordered> <selectors declared> <delimited> <comments inert>
-               <order machine keeps every rule>"   (0/1 each)
+               <order machine keeps every rule> <wf_sheet>"   (0/1 each)
         expected_model sh                 as JSON
         expected_model_nocomments sh      as JSON
         render sh lay                     as "type:value" pairs joined by ";" (code points joined by ",")
@@ -172,9 +172,9 @@ let () =
           let sh = rd_sheet () in
           if !pos <> Array.length !words then failwith "trailing words";
           let toks = g_render sh lay in
-          Printf.printf "%s\t%s %s %s %s %s %s %s\t%s\t%s\t%s\n" (str_out (g_text_of toks))
+          Printf.printf "%s\t%s %s %s %s %s %s %s %s\t%s\t%s\t%s\n" (str_out (g_text_of toks))
             (b2s (g_tok_ok sh lay)) (b2s (g_sel_ok sh)) (b2s (g_well_ordered sh)) (b2s (g_declared sh))
-            (b2s (g_delimited sh lay)) (b2s (g_inert sh lay)) (b2s (g_order sh lay))
+            (b2s (g_delimited sh lay)) (b2s (g_inert sh lay)) (b2s (g_order sh lay)) (b2s (g_wf sh))
             (json_of (g_expected sh)) (json_of (g_expected_nc sh))
             (String.concat ";" (List.map (fun t -> str_out t.ty ^ ":" ^ str_out t.val0) toks))
         | _ -> print_endline "BAD format"
